@@ -44,6 +44,8 @@ def work(item):
     ex["definedness_queries"] = 0
     D = prims.default_domain(v)
     prover = discharge.Prover(timeout_ms=timeout_ms, seed=seed)
+    if thorough:
+        netcheck.start_recording()
     try:
         npaths = prims.run_numpy(v, D)
     except (symx.UnsupportedOp, symx.Inconclusive) as e:
@@ -107,6 +109,8 @@ def work(item):
     if acc.d["samples"]:
         for s in acc.d["samples"]:
             s["primitive"] = v.name
+    if thorough:
+        netcheck.take_recorded(acc, 2)
     return acc.done(prover)
 
 
@@ -172,12 +176,14 @@ def main():
     items = [(i, args.thorough, args.seed, 60000 if args.thorough else 20000) for i, v in enumerate(V) if not args.only or args.only in v.name]
     results = harness.pmap(work, items, args.serial)
     viol_, inc, tot, levels, samples, st, extra = netcheck.summarize(results)
+    cvc5_stats, cvc5_problems = netcheck.cvc5_crosscheck(results, 64, args.serial) if args.thorough else ({"queries": 0, "note": "thorough tier only"}, [])
+    inc += cvc5_problems
     cov = netcheck.base_coverage(
         tot, levels, samples, st, len(items),
         "program = primitive variant (primitive x option variant x argument shape); per variant and NumPy path: one equality query per result entry "
         "for SX and for MX, one definedness query per entry and side that can be undefined; non-trivial = not closed syntactically",
         {"bounds": {"primitives": sorted({v.prim for v in V}), "variants": len(V), "vector_lengths": "0-d, 1, 2, 3", "values": "all reals (equality, L1) / admissible domain with zeros (definedness)"},
-         "definedness_queries": extra.get("definedness_queries", 0),
+         "definedness_queries": extra.get("definedness_queries", 0), "cvc5_agreement": cvc5_stats,
          "functions_encoded": ["engines.numpy: NodesEngine, LinksEngine, OriginsEngine, DestinationsEngine, Engine.max, Engine.vcat",
                                "engines.casadi: the same, through casadi.Function IR (SX, MX->expand)"]})
     assumptions = ["exact real arithmetic; DM (numeric) evaluation of the CasADi primitives is the same CasADi code evaluated numerically (trusted, sampled in encoder validation)",
